@@ -1,9 +1,9 @@
 #!/venv/bin/python
-"""Triage G28 (run by hand, not a registered check): recheck of a pure v2 single-file metafile written by a
+"""Triage G22 (second script) (run by hand, not a registered check): recheck of a pure v2 single-file metafile written by a
 specification-conformant encoder (BEP 52: no `length` key in info, file tree = {name: {"": {length, pieces root}}}).
 
 Expected by C05: 100 for the intact file, whether the content path is the file or its parent directory.
-usage: g28_recheck_v2_single_file_without_length.py [repo root]   (default /repo)
+usage: g22b_recheck_v2_single_file_without_length.py [repo root]   (default /repo)
 """
 import hashlib
 import os
@@ -66,5 +66,5 @@ try:
                 print("size=%d piece=%d content=%s -> %s %s" % (size, plen, "file" if content == fpath else "parent", res, "" if ok else "  <-- expected 100"))
 finally:
     shutil.rmtree(tmp, ignore_errors=True)
-print("G28", "REPRODUCED" if bad else "not reproduced")
+print("G22", "REPRODUCED" if bad else "not reproduced")
 sys.exit(1 if bad else 0)
